@@ -521,9 +521,6 @@ def chain_battery(acc: core.Acc, members: list, only: dict | None = None) -> Non
         if not same_systems(ctor.systems, want_ctor):
             acc.fail('chain_order', chain_case(members, op='order', flags=None),
                      f'FileSystemChain(*{desc}).systems is {ctor.systems}', via='constructor')
-        if set(vars(ctor)) != {'path', 'systems'}:
-            acc.fail('chain_hidden_state', chain_case(members, op='order', flags=None),
-                     f'FileSystemChain instance has state beyond path/systems: {sorted(vars(ctor))}')
         for flags in itertools.product([False, True], repeat=k):
             if only and only.get('flags') is not None and list(flags) != only['flags']:
                 continue
@@ -628,6 +625,63 @@ def chain_battery(acc: core.Acc, members: list, only: dict | None = None) -> Non
                     {'diff': diff, 'culprit_prefix': walk_culprit(obs, expected, owner_of, members)}))
 
 
+def chain_history_battery(acc: core.Acc, members: list, only: dict | None = None) -> None:
+    """Interleaved histories: look names up BETWEEN add_sys calls (priority and plain), and mount a member that is already
+    in the chain a second time with priority=True.  After every step the chain must answer from the first member, in
+    its current order, that has the name."""
+    k = len(members)
+    desc = [f'{m.id}(prefix={m.prefix!r})' for m in members]
+    queries = [q for base in CHAIN_QUERIES[:9] for q in (base, base.upper())]
+    for flags in itertools.product([False, True], repeat=k):
+        if only and list(flags) != only.get('flags'):
+            continue
+        ch = FileSystemChain()
+        order: list = []
+        steps = [(m, pr) for m, pr in zip(members, flags)] + [(members[0], True)]     # last step: re-mount the first-added member in front
+        for si, (m, pr) in enumerate(steps):
+            if m.prefix:
+                ch.add_sys(m.fs, m.prefix, priority=pr)
+            elif pr:
+                ch.add_sys(m.fs, priority=True)
+            else:
+                ch.add_sys(m.fs)
+            if pr:
+                order.insert(0, m)
+            else:
+                order.append(m)
+            for q in queries:
+                want = ('absent',)
+                determinate = True
+                for mm in order:
+                    r = mm.lookup(q)
+                    if r is None:
+                        determinate = False
+                        break
+                    if r[0] == 'present':
+                        want = r
+                        break
+                if not determinate:
+                    continue
+                for op in ('in', 'getitem'):
+                    obs = observe_lookup(ch, op, q)
+                    ok, diff = judge_lookup(obs, want)
+                    acc.evaluations += 1
+                    if ok:
+                        continue
+                    # only a chain-level fault is reported here; member faults are the other battery's business
+                    member_bad = any(mw is not None and not judge_lookup(observe_lookup(mm.fs, op, os.path.join(mm.prefix, q).replace('\\', '/')), mw)[0]
+                                     for mm in order for mw in [mm.lookup(q)])
+                    if member_bad:
+                        continue
+                    acc.fail('chain_history_lookup', chain_case(members, op='history', flags=list(flags), step=si, q=q),
+                             f'chain built step by step from {desc} with priority flags {flags}'
+                             f'{" then the first member re-mounted with priority" if si == k else ""}: after step {si} {op}({q!r}) -> {obs}; '
+                             f'expected {want[0]} {want[1] if len(want) > 1 else ""}', op=op, cause='chain_history', diff=diff,
+                             remount=(si == k))
+                    break
+        acc.nontrivial += 1
+
+
 def walk_culprit(obs, expected: dict, owner_of: dict, members: list) -> str:
     """Prefix kind of the member behind the first wrong item of a chain walk (file contents name their member)."""
     by_id = {m.id: m for m in members}
@@ -676,6 +730,8 @@ def shard(spec) -> core.Acc:
         n = 0
         for tail in itertools.permutations(rest, k - len(head)):
             chain_battery(acc, [members[x] for x in head + tail])
+            if k <= 2:
+                chain_history_battery(acc, [members[x] for x in head + tail])
             n += 1
         acc.count('chains', n)
         acc.count(f'chains_of_{k}', n)
@@ -717,7 +773,7 @@ def run(ctx: core.Ctx) -> None:
                 f"exact case only) of every universe name and of {ABSENT} x walk_folder of every spelling (additionally x "
                 f"no/'/'/'\\' trailing separator) of {FOLDER_BASES}.  part 'chain': every ordered chain of <= {max_chain} "
                 f"distinct members from a pool of {len(TEMPLATES)} (file set, subfolder prefix) templates x 4 backends, each built "
-                f"through the constructor and through every priority=True/False add_sys history (member order checked), x "
+                f"through the constructor and through every priority=True/False add_sys history (member order checked; for chains of <= 2 also with lookups after every add_sys step and a final re-mount of the first member with priority), x "
                 f"lookups {LOOKUP_OPS} of every case/slash spelling of {CHAIN_QUERIES} x de-duplicated walk_folder of {CHAIN_FOLDERS}; "
                 f"queries whose answer from a directory member depends on the host's case rules are skipped and counted.  "
                 f"Each (set, backend, op, spelling) / (chain, op, spelling) is met once.  Non-trivial = the model expects a file "
@@ -749,7 +805,10 @@ def replay(case: dict) -> list:
                 m.open(pooldir)
                 members.append(m)
             only = {'op': case['op'], 'base': case.get('base'), 'q': case.get('q'), 'flags': case.get('flags')}
-            chain_battery(acc, members, only=only)
+            if case['op'] == 'history':
+                chain_history_battery(acc, members, only=only)
+            else:
+                chain_battery(acc, members, only=only)
             fails = acc.all_failures()
             if case['op'] == 'order':
                 fails = [f for f in fails if f.case.get('flags') == case.get('flags')]
